@@ -93,3 +93,10 @@ Example C02_nonvacuous :
   auth_content toy_kdf toy_cfg (firstn (length content - 9) content) (str "pw") = AuthNo /\
   auth_content toy_kdf toy_cfg content (str "pW") = AuthNo.
 Proof. vm_compute. auto. Qed.
+
+(* ---- the model's state space is the code's declared state ----
+   (theories/StateInst.v: package-level variables and struct fields listed by tools/facts on every
+   run; the models keep no state between operations other than these components) *)
+From Whawty Require StateInst.
+Theorem C02_store_state_inventory : StateInst.store_state_inventory.
+Proof. exact StateInst.store_state_inventory_holds. Qed.
